@@ -558,7 +558,7 @@ def reduce_funsor(op, arg, reduced_vars):
 @normalize.register(
     Unary,
     ops.NegOp,
-    (Variable, Contraction[ops.AssociativeOp, ops.MulOp, frozenset, tuple]),
+    (Variable, Contraction[Union[ops.NullOp, ops.AddOp], ops.MulOp, frozenset, tuple]),
 )
 def unary_neg_variable(op, arg):
     return arg * -1
